@@ -52,6 +52,7 @@ var concBodies = [][3]string{
 	{"@m2", "image", "mt=ocim cfg=sha256:c1 cfgmt=cfg layers= subj= at= ann=n=m2"},
 	{"@m3", "image", "mt=ocim cfg=sha256:c1 cfgmt=cfg layers=sha256:c2 subj= at= ann=n=m3"},
 	{"@i1", "index", "mt=ocii children=ocim/sha256:@m1/1 subj= at= ann=n=i1"},
+	{"@i2", "index", "mt=ocii children=ocim/sha256:@m1/1;ocim/sha256:@m2/1 subj= at= ann=n=i2"},
 }
 
 var reBodyName = regexp.MustCompile(`@[a-z][0-9]`)
@@ -286,6 +287,12 @@ func (g *cgen) curated() []ccase {
 		{"two-subjects", []string{setupBlob, mput("r1", "@s1", "@s1"), mput("r1", "@s2", "@s2")}, [][]string{{mput("r1", "@a1", "@a1")}, {mput("r1", "@a4", "@a4")}}},
 		{"two-repositories", []string{setupBlob, "UPOST r2 digest=sha256:c1 body=c1", mput("r1", "@s1", "@s1"), mput("r2", "@s1", "@s1")}, [][]string{{mput("r1", "@a1", "@a1")}, {mput("r2", "@a2", "@a2")}}},
 		{"index-push-vs-child-delete", []string{setupBlob, mput("r1", "@m1", "@m1")}, [][]string{{"MPUT r1 t1 ct=ocii body=@i1"}, {mdel("r1", "@m1")}}},
+		// child records: a child of a present index is pushed again (its record moves to the top level) while it is read by digest;
+		// it is resolvable before and after, so no order explains a not-found answer
+		{"child-repush-vs-read-by-digest", []string{setupBlob, mput("r1", "@m1", "@m1"), mput("r1", "@m2", "@m2"), "MPUT r1 t1 ct=ocii body=@i2"},
+			[][]string{{mput("r1", "t2", "@m1")}, {mget("r1", "@m1")}}},
+		{"child-repush-vs-reads-of-both-children", []string{setupBlob, mput("r1", "@m1", "@m1"), mput("r1", "@m2", "@m2"), "MPUT r1 t1 ct=ocii body=@i2"},
+			[][]string{{mput("r1", "@m1", "@m1")}, {mget("r1", "@m2"), mget("r1", "@m1")}}},
 		{"blob-upload-vs-manifest-needing-it", []string{setupBlob}, [][]string{{"UPOST r1 digest=sha256:c2 body=c2"}, {mput("r1", "t1", "@m3")}}},
 		{"blob-delete-vs-manifest-needing-it", []string{setupBlob}, [][]string{{"BDEL r1 sha256:c1"}, {mput("r1", "t1", "@m1")}}},
 		{"collection-vs-artifact-push", s, [][]string{{"GC r1"}, {mput("r1", "@a1", "@a1")}}},
@@ -301,6 +308,13 @@ func (g *cgen) curated() []ccase {
 func (g *cgen) tagRace() ccase {
 	return ccase{"tag-moves-vs-reads", []string{setupBlob, mput("r1", "t1", "@m1"), mput("r1", "t2", "@m2")},
 		[][]string{{mput("r1", "t2", "@m1"), mput("r1", "t1", "@m2")}, {mget("r1", "t1"), "TAGS r1"}, {mput("r1", "t1", "@m1")}}}
+}
+
+// childRace: children of a present index are pushed again (their child records are removed in place) while they are read by
+// digest through the index a handler got from IndexGet a moment before (free-running stress under the race detector)
+func (g *cgen) childRace() ccase {
+	return ccase{"child-repush-vs-reads", []string{setupBlob, mput("r1", "@m1", "@m1"), mput("r1", "@m2", "@m2"), "MPUT r1 t1 ct=ocii body=@i2"},
+		[][]string{{mput("r1", "t2", "@m1"), mput("r1", "@m2", "@m2")}, {mget("r1", "@m1"), mget("r1", "@m2"), mget("r1", "@m1")}, {mget("r1", "@m2"), mget("r1", "@m1")}}}
 }
 
 // randomCase: a random setup and k threads over one or two repositories
